@@ -1,7 +1,7 @@
 #!/bin/bash
 # intake_seeded3.sh <property>: copy the round-3 changes of /tmp/seed3/<property>/seeded_out to /verif/seeded/<property>_7.._8,
 # confirm each in the scratch worktree (tests unchanged, demo fails with / passes without), then run the property's check on it
-P=$1; WT=/tmp/seed3/$P
+P=$1; WT=${SEEDROOT:-/tmp/seed3}/$P
 for i in 1 2; do
   src=$WT/seeded_out/${P}_$i; [ -d $src ] || continue
   id=${P}_$((i+6)); dst=/verif/seeded/$id
